@@ -791,12 +791,72 @@ def hist_case(function, sets, order):
     return None
 
 
+def _set_params(function, m, p):
+    """give an existing message object other parameters (an application that keeps one object and sends it repeatedly)"""
+    if function == R.RESULT:
+        m.bvlciResultCode = p["code"]
+    elif function in (R.WRITE_BDT, R.READ_BDT_ACK):
+        m.bvlciBDT = [mk_addr(*e) for e in p["bdt"]]
+    elif function == R.FORWARDED_NPDU:
+        m.bvlciAddress = mk_addr(*p["addr"])
+        m.pduData = bytearray(p["npdu"])
+    elif function == R.REGISTER_FD:
+        m.bvlciTimeToLive = p["ttl"]
+    elif function == R.READ_FDT_ACK:
+        m.bvlciFDT = _fdt(p["fdt"])
+    elif function == R.DELETE_FDT_ENTRY:
+        m.bvlciAddress = mk_addr(*p["addr"])
+    else:
+        m.pduData = bytearray(p["npdu"])
+
+
+def send_hist_case(function, sets, order):
+    """ONE message object sent through ONE codec several times, its parameters changed in between: every frame carries
+    what the object held when it was sent.  -> None | (signature, detail)"""
+    above, codec, below = Above(), AnnexJCodec(), Below()
+    bind(above, codec, below)
+    m = None
+    for pos, k in enumerate(order):
+        try:
+            if m is None:
+                m = build(function, sets[k])
+            else:
+                _set_params(function, m, sets[k])
+            m.pduDestination = ("10.0.0.%d" % (pos + 1), 47808)
+            above.request(m)
+        except EncodingError:
+            # the table messages fix their length when they are built: a table changed afterwards is refused loudly
+            # at encode ("length verified at encode"), which is fine; what may not happen is a silent stale frame
+            if pos > 0 and len(below.got) == pos:
+                return None
+            return ("send-history:%s:raises-EncodingError-on-the-first-send" % NAMES[function], {"order": list(order)})
+        except Exception as err:
+            return ("send-history:%s:raises-%s" % (NAMES[function], type(err).__name__), {"order": list(order), "error": repr(err)})
+        if len(below.got) != pos + 1:
+            return ("send-history:%s:send-number-%d-emits-%d-frames" % (NAMES[function], pos + 1, len(below.got) - pos), {"order": list(order)})
+        got = bytes(below.got[pos].pduData)
+        want = R.encode(function, sets[k])
+        if got != want:
+            return ("send-history:%s:frame-does-not-carry-what-the-message-held-when-sent" % NAMES[function],
+                    {"sent_in_order": [show_p(sets[j]) for j in order], "send_number": pos + 1, "emitted": short(got), "want": short(want)})
+        if below.got[pos].pduDestination != m.pduDestination:
+            return ("send-history:%s:frame-addressed-elsewhere" % NAMES[function], {"order": list(order), "send_number": pos + 1})
+    return None
+
+
 def shard_hist(item, deadline):
     import itertools as it
     acc = Acc()
     sets_by_fn = hist_param_sets()
     for function in item:
         sets = sets_by_fn[function]
+        for n in (2, 3):
+            for order in it.product(range(len(sets)), repeat=n):
+                bad = send_hist_case(function, sets, order)
+                acc.case(("send-hist", function, order))
+                acc.outcome("send-hist:%s" % ("faithful" if bad is None else "stale"))
+                if bad is not None:
+                    acc.fail(bad[0], bad[1], {"kind": "send-hist", "function": function, "order": list(order)})
         for n in (1, 2, 3):
             for order in it.product(range(len(sets)), repeat=n):
                 bad = hist_case(function, sets, order)
@@ -901,6 +961,10 @@ def samples(acc, cases, tc, seed):
 
 
 def replay(case):
+    if case.get("kind") == "send-hist":
+        f = send_hist_case(int(case["function"]), hist_param_sets()[int(case["function"])], tuple(case["order"]))
+        return f is None, "one %s object sent through one codec with parameter sets %r in turn -> %r" % (
+            NAMES[int(case["function"])], case["order"], f or "every frame carries what the object held")
     if case.get("kind") == "hist":
         f = hist_case(int(case["function"]), hist_param_sets()[int(case["function"])], tuple(case["order"]))
         return f is None, "decode %s frames in order %r, then look at all kept messages and a default one -> %r" % (
